@@ -210,6 +210,7 @@ Send(e, c) ==
 Attach(k) ==
   /\ k \in AttachKinds /\ ~attached /\ registered /\ ~bridgeClosed
   /\ (k = "xnode" => ~replaced)
+  /\ (k # "local" => endSt["T"] = "open")     \* a connection that is gone cannot shake hands / dial
   /\ attached' = TRUE /\ akind' = k
   \* local / pkt: Bridge.Start launches its copiers (the t2s goroutine still has to start running);
   \* xnode: runBridgeForward's two io.Copy loops
